@@ -9,7 +9,7 @@ ROWS = {
  'C01': ('model_checking', LL, 'bounded symbolic execution of Document::Parse vs RFC 8259 reference recogniser (z3)', 'All byte strings up to the stated length plus block-position families; every path of the real parser is explored and each assertion is decided by z3 for all inputs on that path. Bounded: nothing is claimed beyond the listed lengths/families.', '§3 C01'),
  'C02': ('model_checking', LL, 'bounded symbolic execution of Document::Parse with exact-object memory model + heap ledger (z3)', 'Same executions as C01 for pool and freeing allocator, with reuse history; memory oracle = exact-size objects, uninitialised-dependence tracking, heap ledger.', '§3 C02'),
  'C03': ('model_checking', LL, 'bounded symbolic execution: parsed DOM walked via public API in lock-step with a reference reader (z3)', 'Accepting paths of the C01 executions plus wide-container families; number values beyond kind are C04.', '§3 C03'),
- 'C05': ('model_checking', LL, 'bounded symbolic execution of parseStringInplace (AVX2+SSE) vs reference un-escaper (z3)', 'All literal bodies up to the stated length, plus one/two-backslash and long-prefix families that cross vector-block edges.', '§3 C05'),
+ 'C05': ('model_checking', LL, 'bounded symbolic execution of parseStringInplace (AVX2+SSE) vs reference un-escaper (z3)', 'All literal bodies up to the stated length, plus one/two-backslash, long-prefix and escape-first (copying phase) families that cross vector-block edges.', '§3 C05'),
  'C08': ('model_checking', CB, 'CBMC over IR-derived C of U64toa/I64toa, 128-bit Horner oracle, per value window', 'Per-window universal claim (2^16 / 2^20 consecutive values) at every digit-count boundary, group boundary and seeded pivots; translator validated each run; vacuity witness.', '§3 C08'),
  'C09': ('model_checking', LL, 'bounded symbolic execution of Quote (AVX2/SSE x production/sanitizer path) with page-end placement (z3)', 'Exact-size source at page-end distances, exact-size destination; all contents for short strings, <=1/2 escape positions for strings up to 70 bytes.', '§3 C09'),
  'C11': ('model_checking', LL, 'bounded symbolic execution of GetOnDemand on exact-size unpadded input (z3)', 'All byte strings up to the stated length x 12 paths, plus tail-length families around 32/64-byte blocks.', '§3 C11'),
